@@ -38,12 +38,14 @@ type cell struct {
 	target int    // index into sconfig.targets, -1 for the payment's from account
 	hash   util.Uint160
 	got    bool
+	state  int // index of the group state in force when the check ran (0 = as deployed)
 }
 
 // covKey is the coverage signature of a cell: configuration shape x evaluation
 // context (current frame, calling frame, entry relation) x target class x
 // deciding clause x verdict. Cells of accounts that did not sign share shape -1.
 type covKey struct {
+	mut     int8 // 0 no group change before the check, 1 current contract changed, 2 calling contract changed, 3 another one
 	shape   int32
 	cur     int8
 	calling int8
@@ -55,6 +57,7 @@ type covKey struct {
 
 var frameNames = []string{"-", "entry", "A", "B", "C", "D", "GAS"}
 var frameKinds = []string{"entry", "probe", "dyn", "native"}
+var mutRel = []string{"", "current-contract-changed-its-groups", "calling-contract-changed-its-groups", "other-contract-changed-its-groups"}
 
 var phases = []string{"pre", "post", "native-transfer", "payment-from"}
 var clauses = []string{"self-call", "global", "called-by-entry", "custom-contracts", "custom-groups", "rule-allow", "rule-deny", "no-match", "non-signer"}
@@ -75,6 +78,7 @@ type local struct {
 	byClause [9]int64
 	byPhase  [4]int64
 	byWant   [2]int64
+	byMut    [4]int64
 	cov      map[covKey]int64
 	obs      map[string]int64
 	shapes   map[string]int32
@@ -98,8 +102,12 @@ func (l *local) shapeID(s string) int32 {
 type harness struct {
 	w      *world
 	run    *ev.Run
-	chains [][]sym
+	chains []chainSpec
 }
+
+// gstate is the group membership in force after some frames changed theirs:
+// contract hash -> groups (an empty set for a destroyed contract).
+type gstate map[util.Uint160][][]byte
 
 func targetHash(t []byte) util.Uint160 {
 	if len(t) == 20 {
@@ -116,15 +124,15 @@ func targetHash(t []byte) util.Uint160 {
 // exec runs the chain under the signers and returns every recorded cell.
 // A non-empty fault string means the VM did not halt or the result did not
 // have the shape the probes produce.
-func (h *harness) exec(signers []transaction.Signer, targets [][]byte, chain []sym) (cells []cell, frames []frame, script []byte, fault string) {
+func (h *harness) exec(signers []transaction.Signer, targets [][]byte, chain chainSpec) (cells []cell, states []gstate, frames []frame, script []byte, fault string) {
 	w := h.w
-	script, rest := w.script(targets, chain)
+	script, rest := w.script(targets, chain.syms, chain.muts)
 	frames = append([]frame{{hash: hashOf(script), kind: "entry", name: "entry"}}, rest...)
 	tx := transaction.New(script, 0)
 	tx.Signers = signers
 	ic, err := w.bc.GetTestVM(trigger.Application, tx, nil)
 	if err != nil {
-		return nil, frames, script, "GetTestVM: " + err.Error()
+		return nil, nil, frames, script, "GetTestVM: " + err.Error()
 	}
 	defer ic.Finalize()
 	ic.VM.LoadWithFlags(script, callflag.All)
@@ -137,10 +145,10 @@ func (h *harness) exec(signers []transaction.Signer, targets [][]byte, chain []s
 		err = ic.VM.Run()
 	}()
 	if err != nil {
-		return nil, frames, script, "vm: " + err.Error()
+		return nil, nil, frames, script, "vm: " + err.Error()
 	}
 	if ic.VM.Estack().Len() != 1 {
-		return nil, frames, script, fmt.Sprintf("entry script left %d items", ic.VM.Estack().Len())
+		return nil, nil, frames, script, fmt.Sprintf("entry script left %d items", ic.VM.Estack().Len())
 	}
 	var notes []state.NotificationEvent
 	for _, n := range ic.Notifications {
@@ -148,12 +156,12 @@ func (h *harness) exec(signers []transaction.Signer, targets [][]byte, chain []s
 			notes = append(notes, n)
 		}
 	}
-	d := &decoder{h: h, targets: targets, notes: notes, thash: targetHashes(targets)}
-	d.frame(ic.VM.Estack().Pop().Item(), 0, chain)
+	d := &decoder{h: h, targets: targets, notes: notes, thash: targetHashes(targets), states: []gstate{nil}}
+	d.frame(ic.VM.Estack().Pop().Item(), 0, -1, mutNone, chain.syms, chain.muts)
 	if d.err == "" && len(d.notes) != 0 {
 		d.err = "unclaimed payment notification"
 	}
-	return d.cells, frames, script, d.err
+	return d.cells, d.states, frames, script, d.err
 }
 
 // targetHashes maps every target to the account it stands for; public keys are
@@ -183,7 +191,22 @@ type decoder struct {
 	thash   []util.Uint160
 	notes   []state.NotificationEvent
 	cells   []cell
+	states  []gstate // states[i] = group membership after the i-th change; the decoder walks in execution order
 	err     string
+}
+
+// mutate records that probe p changed its own groups.
+func (d *decoder) mutate(p int, m int8) {
+	n := gstate{}
+	for k, v := range d.states[len(d.states)-1] {
+		n[k] = v
+	}
+	if m == mutDestroy {
+		n[d.h.w.pframes[p].hash] = [][]byte{}
+	} else {
+		n[d.h.w.pframes[p].hash] = d.h.w.gsets[m]
+	}
+	d.states = append(d.states, n)
 }
 
 func (d *decoder) fail(f string, a ...any) {
@@ -210,18 +233,23 @@ func (d *decoder) bools(it stackitem.Item, pos int, phase string, nullOK bool) {
 			d.fail("non-bool in %s list at pos %d", phase, pos)
 			return
 		}
-		d.cells = append(d.cells, cell{pos: pos, phase: phase, target: i, hash: d.thash[i], got: bool(b)})
+		d.cells = append(d.cells, cell{pos: pos, phase: phase, target: i, hash: d.thash[i], got: bool(b), state: len(d.states) - 1})
 	}
 }
 
-func (d *decoder) frame(it stackitem.Item, pos int, rest []sym) {
+// frame walks one frame's result in execution order: first checks, the frame's
+// own group change (probe p, mutation own), the nested call, last checks.
+func (d *decoder) frame(it stackitem.Item, pos int, p int, own int8, rest []sym, muts []int8) {
 	arr, ok := it.Value().([]stackitem.Item)
 	if !ok || len(arr) != 3 {
 		d.fail("frame at pos %d", pos)
 		return
 	}
 	d.bools(arr[0], pos, "pre", false)
-	d.bools(arr[2], pos, "post", false)
+	if own != mutNone {
+		d.mutate(p, own)
+	}
+	defer d.bools(arr[2], pos, "post", false)
 	switch {
 	case len(rest) == 0:
 		if _, isNull := arr[1].(stackitem.Null); !isNull {
@@ -239,7 +267,7 @@ func (d *decoder) frame(it stackitem.Item, pos int, rest []sym) {
 			d.fail("payment transfer result at pos %d", pos)
 			return
 		}
-		d.cells = append(d.cells, cell{pos: pos + 1, phase: "payment-from", target: -1, got: bool(okb)})
+		d.cells = append(d.cells, cell{pos: pos + 1, phase: "payment-from", target: -1, got: bool(okb), state: len(d.states) - 1})
 		if !bool(okb) {
 			return // no callback happened; the reference decides whether that was right
 		}
@@ -259,18 +287,63 @@ func (d *decoder) frame(it stackitem.Item, pos int, rest []sym) {
 			d.fail("notification payload at pos %d", pos+2)
 			return
 		}
-		d.frame(na[0], pos+2, rest[2:])
+		d.frame(na[0], pos+2, d.h.w.probeIdx(rest[1]), muts[1], rest[2:], muts[2:])
+	case rest[0] == 'D':
+		d.frame(arr[1], pos+1, -1, mutNone, rest[1:], muts[1:])
 	default:
-		d.frame(arr[1], pos+1, rest[1:])
+		d.frame(arr[1], pos+1, d.h.w.probeIdx(rest[0]), muts[0], rest[1:], muts[1:])
 	}
 }
 
-func chainName(c []sym) string { return "e>" + strings.Join(strings.Split(string(c), ""), ">") }
+func chainName(c chainSpec) string {
+	n := "e"
+	for i, s := range c.syms {
+		n += ">" + string(rune(s))
+		switch {
+		case c.muts[i] == mutDestroy:
+			n += "(destroys itself)"
+		case c.muts[i] >= 0:
+			n += "(updates its groups to " + []string{"{}", "{g}", "{g2}", "{g,g2}"}[c.muts[i]] + ")"
+		}
+	}
+	return n
+}
+
+// framesAt returns the frames with the group membership of the given state.
+func framesAt(frames []frame, st gstate) []frame {
+	if len(st) == 0 {
+		return frames
+	}
+	out := make([]frame, len(frames))
+	copy(out, frames)
+	for i := range out {
+		if g, ok := st[out[i].hash]; ok && out[i].kind == "probe" {
+			out[i].groups = g
+		}
+	}
+	return out
+}
+
+// mutRelation classifies a cell with respect to the group changes made before it.
+func mutRelation(frames []frame, st gstate, pos int) int8 {
+	if len(st) == 0 {
+		return 0
+	}
+	if _, ok := st[frames[pos].hash]; ok {
+		return 1
+	}
+	if pos > 0 {
+		if _, ok := st[frames[pos-1].hash]; ok {
+			return 2
+		}
+	}
+	return 3
+}
 
 var hexRe = regexp.MustCompile(`[0-9a-fA-F]{8,}`)
 
 // want computes the reference verdict of a cell.
-func (h *harness) want(signers []transaction.Signer, frames []frame, c *cell) (bool, string) {
+func (h *harness) want(signers []transaction.Signer, frames []frame, states []gstate, c *cell) (bool, string) {
 	if c.target == -1 {
 		// from of the payment transfer = the frame that called GAS (a probe: its own hash) or decoyG (entry script).
 		if c.pos-1 == 0 {
@@ -279,17 +352,17 @@ func (h *harness) want(signers []transaction.Signer, frames []frame, c *cell) (b
 			c.hash = frames[c.pos-1].hash
 		}
 	}
-	return refWitness(signers, c.hash, where{frames: frames, pos: c.pos})
+	return refWitness(signers, c.hash, where{frames: framesAt(frames, states[c.state]), pos: c.pos})
 }
 
 // runCase executes one (configuration, chain) pair and compares every cell.
 func (h *harness) runCase(l *local, cfg *sconfig, ci int) {
 	chain := h.chains[ci]
-	caseID := fmt.Sprintf("%s/%d/%s", cfg.part, cfg.idx, string(chain))
+	caseID := fmt.Sprintf("%s/%d/%s", cfg.part, cfg.idx, chain.id)
 	if !h.run.Want(caseID) {
 		return
 	}
-	cells, frames, script, fault := h.exec(cfg.signers, cfg.targets, chain)
+	cells, states, frames, script, fault := h.exec(cfg.signers, cfg.targets, chain)
 	l.obs["vm_runs"]++
 	if fault != "" {
 		l.obs["faults"]++
@@ -300,13 +373,15 @@ func (h *harness) runCase(l *local, cfg *sconfig, ci int) {
 	sid := l.shapeID(cfg.part + "|" + cfg.shape)
 	for i := range cells {
 		c := &cells[i]
-		want, clause := h.want(cfg.signers, frames, c)
+		want, clause := h.want(cfg.signers, frames, states, c)
 		tc := "payment-from"
 		if c.target >= 0 {
 			tc = cfg.tclass[c.target]
 		}
 		cl := idxOf(clauses, clause)
-		k := covKey{shape: sid, cur: idxOf(frameNames, frames[c.pos].name), cbe: c.pos <= 1, tclass: idxOf(tclasses, tc), clause: cl, want: want}
+		mr := mutRelation(frames, states[c.state], c.pos)
+		l.byMut[mr]++
+		k := covKey{mut: mr, shape: sid, cur: idxOf(frameNames, frames[c.pos].name), cbe: c.pos <= 1, tclass: idxOf(tclasses, tc), clause: cl, want: want}
 		if c.pos > 0 {
 			k.calling = idxOf(frameNames, frames[c.pos-1].name)
 		}
@@ -323,7 +398,7 @@ func (h *harness) runCase(l *local, cfg *sconfig, ci int) {
 			l.byWant[0]++
 		}
 		if c.got != want {
-			h.report(cfg, chain, ci, caseID, frames, script, c, want, clause)
+			h.report(cfg, chain, ci, caseID, frames, states, script, c, want, clause)
 		}
 	}
 }
@@ -372,7 +447,7 @@ func subtrees(c cond, out *[]cond) {
 // minimalCond looks for the smallest sub-condition that, as the only Allow
 // rule of the same account, is already evaluated differently from the
 // reference in the same cell; it names the kind of its root.
-func (h *harness) minimalCond(cfg *sconfig, chain []sym, c *cell, clause string) (string, cond) {
+func (h *harness) minimalCond(cfg *sconfig, chain chainSpec, c *cell, clause string) (string, cond) {
 	if clause != "rule-allow" && clause != "rule-deny" && clause != "no-match" {
 		return "", nil // the reference never reached the rules
 	}
@@ -396,14 +471,14 @@ func (h *harness) minimalCond(cfg *sconfig, chain []sym, c *cell, clause string)
 	for si, sc := range subs {
 		one := []transaction.Signer{{Account: c.hash, Scopes: transaction.Rules, Rules: []transaction.WitnessRule{{Action: transaction.WitnessAllow, Condition: sc}}},
 			{Account: h.w.decoyG, Scopes: transaction.Global}}
-		cells, frames, _, fault := h.exec(one, cfg.targets, chain)
+		cells, states, frames, _, fault := h.exec(one, cfg.targets, chain)
 		if fault != "" {
 			continue
 		}
 		for i := range cells {
 			x := &cells[i]
 			if x.pos == c.pos && x.phase == c.phase && x.target == c.target {
-				if want, _ := h.want(one, frames, x); want != x.got {
+				if want, _ := h.want(one, frames, states, x); want != x.got {
 					if si < 2 {
 						return "", nil
 					}
@@ -420,7 +495,7 @@ func (h *harness) minimalCond(cfg *sconfig, chain []sym, c *cell, clause string)
 // break which flips millions of cells costs one minimisation per shape.
 var sigCache sync.Map
 
-func (h *harness) report(cfg *sconfig, chain []sym, ci int, caseID string, frames []frame, script []byte, c *cell, want bool, clause string) {
+func (h *harness) report(cfg *sconfig, chain chainSpec, ci int, caseID string, frames []frame, states []gstate, script []byte, c *cell, want bool, clause string) {
 	sig := fmt.Sprintf("cell:%s:want=%v", clause, want)
 	if c.phase == "native-transfer" || c.phase == "payment-from" {
 		sig += ":in-native-transfer"
@@ -428,7 +503,8 @@ func (h *harness) report(cfg *sconfig, chain []sym, ci int, caseID string, frame
 	if c.target >= 0 && len(cfg.targets[c.target]) != 20 {
 		sig += ":public-key-argument"
 	}
-	key := sig + "|" + cfg.part + "|" + cfg.shape
+	mr := mutRelation(frames, states[c.state], c.pos)
+	key := sig + "|" + cfg.part + "|" + cfg.shape + "|" + mutRel[mr]
 	if v, ok := sigCache.Load(key); ok {
 		h.run.Violation(v.(string), caseID, "", nil) // counted under the signature already witnessed
 		return
@@ -436,6 +512,9 @@ func (h *harness) report(cfg *sconfig, chain []sym, ci int, caseID string, frame
 	minKind, minCond := h.minimalCond(cfg, chain, c, clause)
 	if minKind != "" {
 		sig = "cell:condition=" + minKind // one mis-evaluated condition kind = one signature, whatever the verdict
+	}
+	if mr == 1 || mr == 2 {
+		sig += ":after-" + mutRel[mr]
 	}
 	tc := "payment-from"
 	if c.target >= 0 {
@@ -447,11 +526,11 @@ func (h *harness) report(cfg *sconfig, chain []sym, ci int, caseID string, frame
 		b, _ := json.Marshal(minCond)
 		detail += "; smallest sub-condition already evaluated differently: " + string(b)
 	}
-	h.run.Violation(sig, caseID, detail, h.witness(cfg, chain, frames, script, c, want, clause))
+	h.run.Violation(sig, caseID, detail, h.witness(cfg, chain, framesAt(frames, states[c.state]), script, c, want, clause))
 	sigCache.Store(key, sig) // only after the witnessed report exists
 }
 
-func (h *harness) witness(cfg *sconfig, chain []sym, frames []frame, script []byte, c *cell, want bool, clause string) map[string]any {
+func (h *harness) witness(cfg *sconfig, chain chainSpec, frames []frame, script []byte, c *cell, want bool, clause string) map[string]any {
 	sj, _ := json.Marshal(cfg.signers)
 	var sb []string
 	for i := range cfg.signers {
@@ -507,9 +586,9 @@ func TestCheck(t *testing.T) {
 	run := ev.Start("C15", "one case = one (signer configuration, call chain) pair executed on a neotest chain; every CheckWitness "+
 		"the frames execute (before and after the nested call, in the entry script, in probe contracts with and without manifest "+
 		"groups, in dynamic scripts, and the native GAS contract's own check inside transfer) is one cell compared with the "+
-		"reference evaluator. Distinct = (part, kinds-only shape of the configuration: scope byte, list choice, rule actions "+
+		"reference evaluator; in part mutate one frame of the chain changes its own manifest groups (update) or destroys itself mid-invocation. Distinct = (part, kinds-only shape of the configuration: scope byte, list choice, rule actions "+
 		"and condition tree shape [root kind and depth only for the sampled deep part], position of the signer in the list) x "+
-		"evaluation context (current frame, calling frame, entry relation) x target class x deciding clause x verdict; "+
+		"evaluation context (current frame, calling frame, entry relation) x target class x deciding clause x verdict x relation to an earlier group change; "+
 		"non-trivial = the target is a signer whose scopes were evaluated or the calling contract itself (cells of accounts "+
 		"that did not sign are counted as evaluations only). Part matcher: one case = one (condition tree, stub context) "+
 		"evaluation of WitnessCondition.Match; distinct = root kind x depth x context x verdict")
@@ -547,7 +626,9 @@ func TestCheck(t *testing.T) {
 			ext = append(ext, c)
 		}
 	}
-	h.chains = append(append([][]sym{}, basic...), ext...)
+	for _, c := range append(append([][]sym{}, basic...), ext...) {
+		h.chains = append(h.chains, mkChain(c, nil))
+	}
 	basicIdx := make([]int, len(basic))
 	for i := range basic {
 		basicIdx[i] = i
@@ -555,6 +636,15 @@ func TestCheck(t *testing.T) {
 	allIdx := make([]int, len(h.chains))
 	for i := range h.chains {
 		allIdx[i] = i
+	}
+	// Chains in which exactly one probe frame changes its own group membership
+	// (ContractManagement.update / destroy) between its checks.
+	var mutIdx []int
+	for _, c := range append(append([][]sym{}, basic...), ext...) {
+		for _, mc := range w.mutations(c) {
+			mutIdx = append(mutIdx, len(h.chains))
+			h.chains = append(h.chains, mc)
+		}
 	}
 
 	atoms := w.atoms()
@@ -580,6 +670,11 @@ func TestCheck(t *testing.T) {
 	add("rule2", w.rule2Configs("rule2", d1, d1), allIdx, true)
 	if thorough {
 		add("rule2x", w.rule2Configs("rule2x", d2, d1), basicIdx, true)
+	}
+	if thorough {
+		add("mutate", w.mutateConfigs(validScopes, d2, true), mutIdx, true)
+	} else {
+		add("mutate", w.mutateConfigs(validScopes, d1, false), mutIdx, true)
 	}
 	nDeep, nMulti := ev.Pick(4000, 40000), ev.Pick(1000, 6000)
 	jobs = append(jobs, job{gen: func(i int) sconfig { return w.deepConfig(i, atoms) }, n: nDeep, chains: allIdx, name: "deep"})
@@ -678,6 +773,9 @@ func TestCheck(t *testing.T) {
 		for i, v := range l.byPhase {
 			tot["cells_phase_"+phases[i]] += v
 		}
+		for i := 1; i < 4; i++ {
+			tot["cells_after_"+mutRel[i]] += l.byMut[i]
+		}
 		tot["want_false"] += l.byWant[0]
 		tot["want_true"] += l.byWant[1]
 	}
@@ -688,16 +786,19 @@ func TestCheck(t *testing.T) {
 		tc := tclasses[k.k.tclass]
 		cl := clauses[k.k.clause]
 		nontrivial := cl != "non-signer"
-		sig := fmt.Sprintf("%s|cur=%s|calling=%s|byentry=%v|%s|%s|%v", k.shape, frameNames[k.k.cur], frameNames[k.k.calling], k.k.cbe, tc, cl, k.k.want)
+		sig := fmt.Sprintf("%s|cur=%s|calling=%s|byentry=%v|%s|%s|%v|%s", k.shape, frameNames[k.k.cur], frameNames[k.k.calling], k.k.cbe, tc, cl, k.k.want, mutRel[k.k.mut])
 		run.CaseN(sig, nontrivial, v)
 	}
 	run.Obs("chains_basic", int64(len(basic)))
 	run.Obs("chains_with_dynamic_or_native", int64(len(ext)))
+	run.Obs("chains_with_group_change", int64(len(mutIdx)))
 	run.Obs("conditions_depth_le2", int64(len(d2)))
 	run.Obs("condition_atoms", int64(len(atoms)))
 
 	// Written-out samples: one cell of a few parts.
-	for _, j := range jobs {
+	sampleOrder := append([]job{}, jobs...)
+	sort.SliceStable(sampleOrder, func(a, b int) bool { return sampleOrder[a].name == "mutate" && sampleOrder[b].name != "mutate" })
+	for _, j := range sampleOrder {
 		if j.n == 0 {
 			continue
 		}
@@ -709,7 +810,7 @@ func TestCheck(t *testing.T) {
 			cfg = j.cfgs[i]
 		}
 		chain := h.chains[j.chains[len(j.chains)-1]]
-		cells, frames, _, fault := h.exec(cfg.signers, cfg.targets, chain)
+		cells, states, frames, _, fault := h.exec(cfg.signers, cfg.targets, chain)
 		if fault != "" || len(cells) == 0 {
 			continue
 		}
@@ -717,8 +818,8 @@ func TestCheck(t *testing.T) {
 		var rows []string
 		for i := range cells {
 			c := &cells[i]
-			if c.target == 0 && c.phase != "post" {
-				want, clause := h.want(cfg.signers, frames, c)
+			if c.target == 0 && (c.phase != "post" || j.name == "mutate") {
+				want, clause := h.want(cfg.signers, frames, states, c)
 				rows = append(rows, fmt.Sprintf("pos%d(%s,%s): got=%v ref=%v (%s)", c.pos, frames[c.pos].name, c.phase, c.got, want, clause))
 			}
 		}
@@ -743,6 +844,9 @@ func TestCheck(t *testing.T) {
 		"rule2: {Allow,Deny}^2 x {a, Not a}^2; rule2x (thorough): {Allow,Deny}^2 x depth<=2 x {a, Not a}; zero-hash: 5 conditions over the zero hash x {Allow,Deny}; "+
 		"each x every listed chain (basic = all 39 sequences of 1..3 probes incl. re-entrancy; extended = all valid sequences of 1..3 symbols containing a dynamic script or the native GAS payment) "+
 		"x every position x {pre,post} x every target. Signer list layout alternates with the configuration index ([s,decoyG] / [decoyN,s,decoyG]) and is not a product dimension. "+
+		"mutate: every scopes configuration with the CustomGroups bit (quick: key account only) + {Allow,Deny} x every condition (quick: a | Not a; thorough: depth<=2) that mentions a Group or CalledByGroup atom, "+
+		"x every chain of the list above in which exactly one probe frame (not at or below a dynamic script) calls ContractManagement.update with a manifest carrying another of the group sets {},{g},{g2},{g,g2} "+
+		"or ContractManagement.destroy between its first checks and the nested call (a destroyed contract is not invoked again); the reference uses the group set in force at the moment of each check. "+
 		"Composite arity > 2, depth 3 and lists of 3 rules are sampled only (parts deep, multi). "+
 		"matcher: WitnessCondition.Match with a stub context for every tree of depth<=3 with composite arity<=2 over the 16 atoms x every context "+
 		"(6 current frames x {no caller, 6 callers directly from the entry script, 6 callers deeper})")
